@@ -387,7 +387,13 @@ class C03(Prop):
     def norm(k, v):
       # stated assumption: equal dicts come in equal key order where a frozen default is compared
       for fdv in frozen_default.get(k, []):
-        if canon(v) == canon(fdv):
+        same = canon(v) == canon(fdv)
+        if not same and v and v[0] == 'd' and fdv and fdv[0] == 'd':
+          try:
+            same = tv.to_py(v) == tv.to_py(fdv)       # Python equality: key order and 1 == 1.0 do not matter
+          except Exception:   # pylint: disable=broad-except
+            same = False
+        if same:
           return copy.deepcopy(fdv)
       return v
     items = [[f[0][1], norm(f[0][1], g.valid(f[1]))] for f in fields if not (f[1].get('d') is not None and rng.chance(0.3))]
